@@ -24,7 +24,7 @@ PROPS = {
              "3/4 hostile (random octets up to 65535, every kind of prefix, 1-3 structured mutations of counts, RDLENGTH, "
              "pointers, inserts, deletes, flips), TSIG-signed requests (valid, stale, corrupted or truncated MAC, unknown "
              "key, 255-octet algorithm name) and their mutations; UDP and TCP; IPv4, IPv6 and mapped sources. "
-             "distinct = (how the request was made, response shape, request classification) classes; requests are also shaped structurally (question section cleared, opcodes 1-15, 0/1/2 OPT records with arbitrary version / extended-RCODE octets at any position); one in twelve bulky zones holds an RRset of 700-1100 MX records (TCP responses above 16 KiB) that a sixth of the requests ask for; signed requests also use algorithm and key names of 255 and of 256 octets; a third of the bulky zones hold an MX fan-out (17-40 nested exchanges with 0-14 addresses each); every scenario's name list contains wire-confusable names (a label spelling a catalog entry's wire form)",
+             "distinct = (how the request was made, response shape, request classification) classes; requests are also shaped structurally (question section cleared, opcodes 1-15, 0/1/2 OPT records with arbitrary version / extended-RCODE octets at any position); one in twelve bulky zones holds an RRset of 700-1100 MX records (TCP responses above 16 KiB) that a sixth of the requests ask for; signed requests also use algorithm and key names of 255 and of 256 octets; a third of the bulky zones hold an MX fan-out (17-40 nested exchanges with 0-14 addresses each); every scenario's name list contains wire-confusable names (a label spelling a catalog entry's wire form); each shard also runs a small pass through a real I/O provider (blocking or Tokio; 10 TCP and 10 UDP batches): the octets received must equal handle_message's response to each request alone",
         assumptions=COMMON_ASSUMPTIONS + ["response buffers follow the documented caller contract (65535 for TCP, the EDNS payload size for UDP)"],
         quick=plans(dict(build="dbg", nshards=16), dict(build="miri", nshards=4, timeout=900)),
         thorough=plans(dict(build="dbg", nshards=16), dict(build="rel", nshards=16), dict(build="asan", nshards=16, scale=0.2), dict(build="miri", nshards=16, timeout=3000)),
@@ -35,7 +35,7 @@ PROPS = {
                   "over, counts, names, pointers, RDATA of RFC 1035 types, OPT/TSIG placement)",
         rule="same scenario generator as C01 (hostile zones included), 40 requests per scenario, half of them hostile, "
              "TSIG-signed requests when keys are configured; every response (to well-formed and malformed requests alike) "
-             "is decoded. distinct = (request kind, response shape) classes; same structural shaping and >16 KiB responses as C01",
+             "is decoded. distinct = (request kind, response shape) classes; same structural shaping and >16 KiB responses as C01; each shard also runs a small pass through a real I/O provider (blocking or Tokio; 10 TCP and 10 UDP batches): the octets received must equal handle_message's response to each request alone",
         assumptions=COMMON_ASSUMPTIONS + ["type-specific RDATA validity is demanded for RFC 1035 name-bearing types only (zones may hold opaque or malformed RDATA for other types)"],
         quick=plans(dict(build="dbg", nshards=16)),
         thorough=plans(dict(build="dbg", nshards=16), dict(build="rel", nshards=16), dict(build="asan", nshards=16, scale=0.2), dict(build="miri", nshards=16, timeout=3000)),
@@ -46,7 +46,7 @@ PROPS = {
                   "no-response conditions)",
         rule="exhaustive: all 65536 values of the header flag word x 2 bodies (mixed-case question / no question) x both "
              "transports; plus scenarios with random flag words, QR set, 0/1/2 questions, QNAMEs that are pointers into "
-             "the header, mixed-case QNAMEs, and hostile mutations. distinct = (opcode, RD, question present, flag bits) classes; half of the scenarios carry TSIG key sets and a third of their requests are signed (valid, stale, corrupted, unknown key, and valid with a TSIG Original ID that differs from the header ID)",
+             "the header, mixed-case QNAMEs, and hostile mutations. distinct = (opcode, RD, question present, flag bits) classes; half of the scenarios carry TSIG key sets and a third of their requests are signed (valid, stale, corrupted, unknown key, and valid with a TSIG Original ID that differs from the header ID); each shard also runs a small pass through a real I/O provider (blocking or Tokio; 10 TCP and 10 UDP batches): the octets received must equal handle_message's response to each request alone",
         assumptions=COMMON_ASSUMPTIONS + ["RRL disabled so that a missing response is attributable"],
         quick=plans(dict(build="dbg", nshards=16)),
         thorough=plans(dict(build="dbg", nshards=16), dict(build="rel", nshards=16), dict(build="asan", nshards=16, scale=0.2), dict(build="miri", nshards=16, timeout=3000)),
@@ -57,7 +57,7 @@ PROPS = {
         rule="catalogs with RRsets of 10-80 addresses, 200-octet TXT records, owner names of 120-190 octets with MX sets "
              "(defeating compression), referrals with and without glue; request EDNS payload sizes drawn from "
              "{0,1,511,512,513,600,700,1232,1233,2000,4096,65535,random}; server sizes 512..65535; every request is sent "
-             "over UDP and over TCP. distinct = (outcome kind: same / tc / partial, size bucket of the complete response); the UDP response buffer handed to the server is the configured payload size, slightly larger, random, or 65535 octets (the limit must come from the server, not from the buffer); a third of the scenarios carry TSIG keys (key names related to zone names, up to 190 octets) and a third of their requests are validly signed, so the space taken by the TSIG record takes part in every size decision (the comparison with the TCP response then ignores the TSIG records themselves); a quarter of the requests in key scenarios have a QNAME of 200-255 octets below a loaded zone, so that question + TSIG record approach and exceed 512 octets. Not judged: TC over UDP when the TCP outcome is a SERVFAIL reached only after writing a CNAME chain (the server cannot foresee it); a sixth of the scenarios have rate limiting on (there only 'TCP never sets TC' and the UDP size limit are judged); MX fan-outs as in C01 make optional address RRsets stop and start fitting in the middle of a response",
+             "over UDP and over TCP. distinct = (outcome kind: same / tc / partial, size bucket of the complete response); the UDP response buffer handed to the server is the configured payload size, slightly larger, random, or 65535 octets (the limit must come from the server, not from the buffer); a third of the scenarios carry TSIG keys (key names related to zone names, up to 190 octets) and a third of their requests are validly signed, so the space taken by the TSIG record takes part in every size decision (the comparison with the TCP response then ignores the TSIG records themselves); a quarter of the requests in key scenarios have a QNAME of 200-255 octets below a loaded zone, so that question + TSIG record approach and exceed 512 octets. Not judged: TC over UDP when the TCP outcome is a SERVFAIL reached only after writing a CNAME chain (the server cannot foresee it); a sixth of the scenarios have rate limiting on (there only 'TCP never sets TC' and the UDP size limit are judged); MX fan-outs as in C01 make optional address RRsets stop and start fitting in the middle of a response; each shard also runs a small pass through a real I/O provider (blocking or Tokio; 10 TCP and 10 UDP batches): the octets received must equal handle_message's response to each request alone",
         assumptions=COMMON_ASSUMPTIONS + ["no TSIG and no RRL in this workload (byte-equality of the twin responses)"],
         quick=plans(dict(build="dbg", nshards=16)),
         thorough=plans(dict(build="dbg", nshards=16), dict(build="rel", nshards=16), dict(build="asan", nshards=16, scale=0.05), dict(build="miri", nshards=16, timeout=3000)),
@@ -121,7 +121,7 @@ PROPS = {
              "depths, CNAMEs, MX, empty non-terminals, wildcards under and beside cuts, case variants); every name within two "
              "labels of any node or RDATA target, random case; each name x one of 9 types x search_below_cuts x unchecked "
              "(unchecked only for in-zone names; names whose wildcard source owns NS are counted and excluded). Variant, RRset "
-             "contents, TTL, referral owner and NS set, source of synthesis are compared. distinct = (outcome, options, type)",
+             "contents, TTL, referral owner and NS set, source of synthesis are compared. distinct = (outcome, options, type); a third of the zones are also offered records that must be rejected (wrong class, outside the zone, TTL mismatch) and the rejected owners, their parents and children are looked up",
         assumptions=COMMON_ASSUMPTIONS + ["unchecked=true is only combined with in-zone names (the contract leaves other cases undefined)"],
         quick=plans(dict(build="dbg", nshards=16), dict(build="miri", nshards=4, timeout=900)),
         thorough=plans(dict(build="dbg", nshards=16), dict(build="rel", nshards=16), dict(build="asan", nshards=16, scale=0.2), dict(build="miri", nshards=16, timeout=3000)),
